@@ -145,7 +145,7 @@ impl<'a> Imager<'a> {
     }
 }
 
-fn read_prefix<'a>(what: &str, r: &mut ShapeReader<Cursor<&'a [u8]>>, expect: &[Geom]) -> Result<usize, Fail> {
+fn read_prefix<T: std::io::Read + std::io::Seek>(what: &str, r: &mut ShapeReader<T>, expect: &[Geom]) -> Result<usize, Fail> {
     let n = expect.len();
     let mut ok = 0usize;
     let mut it = r.iter_shapes();
@@ -332,6 +332,65 @@ fn crash_k<K: Kind>(w: &Workload, ctx: &mut Ctx) -> Result<(), Fail> {
                 Err(p) => fail!("panic", "{}, reader with index panics: {}", what2, p),
             }
             pairs += 1;
+        }
+    }
+    // the same oracle through the path-based reader (files on disk, BufReader<File>): the states around every completed
+    // finalize plus a dozen evenly spread ones, the .shp alone and next to the complete .shx
+    {
+        let mut picks: Vec<usize> = Vec::new();
+        for (ops, _) in &durable {
+            for d in [0usize, 1, 2, 5] {
+                if let Some(ix) = shp_states.iter().position(|s| s.0 == ops + d && s.1 == 0) {
+                    picks.push(ix);
+                }
+                // and a cut inside the write that follows
+                if let Some(ix) = shp_states.iter().position(|s| s.0 == ops + d && s.1 == 3) {
+                    picks.push(ix);
+                }
+            }
+        }
+        for k in 0..12 {
+            picks.push(k * (shp_states.len() - 1) / 11);
+        }
+        picks.sort();
+        picks.dedup();
+        let dir = crate::common::scratch_dir();
+        let p = dir.join("c11-crash.shp");
+        let px = p.with_extension("shx");
+        let full_shx = shx.bytes();
+        let mut si3 = Imager::new(&shp_log);
+        for ix in picks {
+            let sst = shp_states[ix];
+            let img = si3.at(sst);
+            let must = durable.iter().filter(|(ops, _)| sst.0 >= *ops).map(|(_, k)| *k).max().unwrap_or(0);
+            let any_durable = durable.iter().any(|(ops, _)| sst.0 >= *ops);
+            for with_shx in [false, true] {
+                std::fs::write(&p, &img).map_err(|e| Fail::new("disk-io", e.to_string()))?;
+                if with_shx {
+                    std::fs::write(&px, &full_shx).map_err(|e| Fail::new("disk-io", e.to_string()))?;
+                } else {
+                    let _ = std::fs::remove_file(&px);
+                }
+                let what = format!("crash after {} .shp ops + {} bytes, file on disk opened by path{}", sst.0, sst.1, if with_shx { " next to the complete .shx" } else { " (no .shx)" });
+                let res = guard(|| -> Result<Option<usize>, Fail> {
+                    match ShapeReader::from_path(&p) {
+                        Err(_) => Ok(None),
+                        Ok(mut r) => read_prefix(&what, &mut r, &expect).map(Some),
+                    }
+                });
+                let got = match res {
+                    Ok(r) => r?,
+                    Err(pn) => fail!("panic", "{}: reader panics: {}", what, pn),
+                };
+                // the durability clause speaks about the .shp: asserted on the route that reads the .shp alone
+                if !with_shx && any_durable {
+                    match got {
+                        None => fail!("durable-lost", "{}: a finalize had completed on the .shp but the file cannot be opened", what),
+                        Some(k) => ensure!(k >= must, "durable-lost", "{}: {} shapes were written before the last completed finalize, only {} are readable", what, must, k),
+                    }
+                }
+                pairs += 1;
+            }
         }
     }
     // the transposed product: EVERY .shx crash state against a few .shp states (evenly spread, plus the complete file)
